@@ -67,38 +67,63 @@ class Unresolved(Exception):
         self.kind = kind  # "none" | "ambiguous" | "deep"
 
 
-def flatten(items, groups, pg=None, segnames=None, depth=0):
+def flatten(items, groups, pg=None, segnames=None, depth=0, marks=None):
     """Inline nested ordered groups by their *resolved path* (the statement says nested
-    paths are inlined): a nested group must itself resolve to exactly one walk."""
+    paths are inlined): a nested group must itself resolve to exactly one walk.
+    With marks (a dict) the positions of *supplied* boundary segments are recorded: marks["tail"] holds the
+    indices of last elements of inlined paths that were not items of the nested group but supplied for its
+    trailing edge (for a group referenced with '-': for its leading edge), marks["head"] likewise for first
+    elements; marks["first"] / marks["last"] tell whether the whole list starts / ends with such an element or
+    with an edge item."""
     out = []
+    tail, head = set(), set()
     for it in items:
         n, o = it[:-1], it[-1]
         if n in groups:
             if depth > 6:
                 raise Unresolved("deep")
-            sub_flat = flatten(groups[n], groups, pg, segnames, depth + 1)
-            ws = consistent_walks(pg, sub_flat, segnames)
+            sub_marks = {} if marks is not None else None
+            sub_flat = flatten(groups[n], groups, pg, segnames, depth + 1, sub_marks)
+            ws = consistent_walks(pg, sub_flat, segnames, coincide=sub_marks["tail"] if sub_marks else None)
             if not ws:
                 raise Unresolved("none")
             if len(ws) > 1:
                 raise Unresolved("ambiguous")
             sub = ws[0]
+            first_sup = last_sup = False
+            if sub_marks is not None and sub_flat:
+                first_sup, last_sup = sub_marks["first"], sub_marks["last"]
             if o == "+":
+                if first_sup:
+                    head.add(len(out))
                 out.extend(sub)
+                if last_sup:
+                    tail.add(len(out) - 1)
             else:
+                if last_sup:
+                    head.add(len(out))
                 out.extend(inv(x) for x in reversed(sub))
+                if first_sup:
+                    tail.add(len(out) - 1)
         else:
             out.append(it)
+    if marks is not None:
+        marks["tail"], marks["head"] = tail, head
+        is_edge = lambda x: pg is not None and x[:-1] in pg.edges
+        marks["first"] = bool(out) and (is_edge(out[0]) or 0 in head)
+        marks["last"] = bool(out) and (is_edge(out[-1]) or (len(out) - 1) in tail)
     return out
 
 
-def consistent_walks(pg, flat, segnames, limit=60, lenient=False):
+def consistent_walks(pg, flat, segnames, limit=60, lenient=False, coincide=None):
     """All alternating walks [seg, edge, seg, ...] consistent with the flat item list:
     every item is an element of the walk, in order; between two items at most one
     element is supplied (the edge joining two segments, the segment between two edges,
     the segment before a leading / after a trailing edge). With lenient=True two equal
     consecutive segment items may also denote the same element of the walk (the
-    boundary of an inlined nested path)."""
+    boundary of an inlined nested path); with coincide (a set of indices of flat) only a segment at one of
+    those indices - the segment supplied for the trailing edge of an inlined path - may coincide with an equal
+    segment item that follows it."""
     res = []
 
     def joins(se, x, y):
@@ -130,7 +155,7 @@ def consistent_walks(pg, flat, segnames, limit=60, lenient=False):
             if not walk:
                 rec(i + 1, [it])
             elif ends_with_seg:
-                if lenient and walk[-1] == it:
+                if walk[-1] == it and (lenient or (coincide is not None and (i - 1) in coincide and flat[i - 1] == it)):
                     rec(i + 1, walk)
                 for se in pg.joining(walk[-1], it):
                     rec(i + 1, walk + [se, it])
@@ -232,7 +257,13 @@ def derive_items(r, pg, walk, segs, allow_nested, groups, lines, depth=0):
             if name not in groups:
                 groups[name] = sub_items
                 lines.append(["O", [name, " ".join(sub_items)], []])
-                items = walk[:2 * i] + [ref] + walk[2 * j + 1:]
+                rest = walk[2 * j + 1:]
+                tail_item = sub_items[-1] if ref.endswith("+") else sub_items[0]
+                if tail_item[:-1] in pg.edges and gen.chance(r, 0.6):
+                    # the nested path ends with an edge (its last segment is elided): the list goes on with the
+                    # segment that edge leads to
+                    rest = walk[2 * j:]
+                items = walk[:2 * i] + [ref] + rest
     # elisions on the primitive parts
     elided_edge = False
     out = list(items)
@@ -281,12 +312,21 @@ def prop_paths(case):
     multi = any(v > 1 for v in pairs.values())
     planted = case.get("planted")
     flat = None
+    tail_case = False
     try:
-        flat = flatten(groups[pid], groups, pg, set(segs))
+        marks = {}
+        flat = flatten(groups[pid], groups, pg, set(segs), marks=marks)
         strict = consistent_walks(pg, flat, set(segs))
         walks = consistent_walks(pg, flat, set(segs), lenient=True)
+        # a segment item right after a nested path which ends with an edge is the segment that edge leads to
+        # (it is not visited twice): the reading the library itself implements for nested paths
+        tailw = consistent_walks(pg, flat, set(segs), coincide=marks["tail"])
+        self_edges = any(a[:-1] == b[:-1] for a, b in edges.values())
         if planted and strict == [planted] and walks == [planted] and not multi:
             klass = "i"
+        elif planted and tailw == [planted] and walks == [planted] and not multi and not self_edges:
+            klass = "i"
+            tail_case = True
         elif not walks:
             klass = "ii"
         else:
@@ -338,16 +378,53 @@ def prop_paths(case):
         nt = len(planted) >= 5 and (case.get("elided_edge", False) or len(groups) > 1 or bool(case.get("rev")))
     elif klass == "ii":
         nt = bool(case.get("from_valid"))
-    return {"nt": nt, "class": klass, "raised": err is not None}
+    return {"nt": nt, "class": klass, "raised": err is not None, "boundary_segment_repeated": tail_case}
+
+
+def build_tail_case(r):
+    """A graph without self-edges and parallel edges, a directed walk over it, and an item list in which a
+    nested path that ends with an edge (referenced '+') or begins with one (referenced '-') is followed by the
+    segment that edge leads to."""
+    for _ in range(40):
+        segs, slen, lines, edges, pg, walk = build_paths_case(r)
+        pairs = Counter(frozenset([a[:-1], b[:-1]]) for a, b in edges.values())
+        if any(v > 1 for v in pairs.values()) or any(a[:-1] == b[:-1] for a, b in edges.values()) or len(walk) < 3:
+            continue
+        nseg = (len(walk) + 1) // 2
+        i = r.randrange(nseg - 1)
+        j = r.randint(i + 1, nseg - 1)
+        sub = walk[2 * i:2 * j + 1]
+        if gen.chance(r, 0.5):
+            sub_items, ref = sub[:-1], "o1+"
+        else:
+            rsub = [inv(x) for x in reversed(sub)]
+            sub_items, ref = rsub[1:], "o1-"
+        # further elisions inside the nested path: a segment between two kept edges
+        k = 1
+        while k < len(sub_items) - 1:
+            if sub_items[k][:-1] in segs and sub_items[k - 1][:-1] in pg.edges and sub_items[k + 1][:-1] in pg.edges and gen.chance(r, 0.4):
+                sub_items.pop(k)
+                continue
+            k += 1
+        lines.append(["O", ["o1", " ".join(sub_items)], []])
+        items = walk[:2 * i] + [ref] + walk[2 * j:]
+        return segs, slen, lines, edges, pg, walk, items
+    return None
 
 
 @st.composite
 def st_paths(draw):
     r = draw(st.randoms(use_true_random=False))
-    segs, slen, lines, edges, pg, walk = build_paths_case(r)
+    mode = gen.choice(r, ["planted", "planted", "planted", "edges", "drop", "swap", "parallel", "random", "tail", "tail"])
+    tail = build_tail_case(r) if mode == "tail" else None
+    if tail is not None:
+        segs, slen, lines, edges, pg, walk, items = tail
+        elided = True
+    else:
+        segs, slen, lines, edges, pg, walk = build_paths_case(r)
     groups = {}
-    mode = gen.choice(r, ["planted", "planted", "planted", "edges", "drop", "swap", "parallel", "random"])
-    items, elided = derive_items(r, pg, walk, segs, True, groups, lines)
+    if tail is None:
+        items, elided = derive_items(r, pg, walk, segs, True, groups, lines)
     if mode == "edges" and len(walk) >= 5:
         # the path given by its edges only (every segment is supplied)
         items, elided = [x for i, x in enumerate(walk) if i % 2 == 1], True
